@@ -147,3 +147,82 @@ Definition consts_case (types : list string) (modes : list Z) (keys : list strin
               | _ => false
               end in
   [-1; b2z (ok_t && ok_m && ok_k); 1; 0; 0; b2z (ok_t && ok_m && ok_k); -1; 0; 0; 0; 0; 0; 0].
+
+(* ---------- the controller family: cluster-level events through the real handlers, queue and
+   lbc.sync ---------- *)
+
+(* one observed step: listing, Path, Error != nil, keys the worker synced (drain only) *)
+Definition csobs := (sobs * list string)%type.
+
+Fixpoint list_str_eqb (a b : list string) : bool :=
+  match a, b with
+  | [], [] => true
+  | x :: ra, y :: rb => String.eqb x y && list_str_eqb ra rb
+  | _, _ => false
+  end.
+
+(* apply store operations, remember what the last lookup showed *)
+Fixpoint apply_ops (cadel : bool) (st : state) (ops : list op) (last : option refobs) : state * option refobs :=
+  match ops with
+  | [] => (st, last)
+  | o :: r => let '(st', ro) := step cadel st o in
+              apply_ops cadel st' r (match ro with Some x => Some x | None => last end)
+  end.
+
+Fixpoint cagree (cadel : bool) (c : cstate) (st : state) (h : list cev) (obs : list csobs) : bool :=
+  match h, obs with
+  | [], [] => true
+  | e :: r, ((ls, p, er), synced) :: robs =>
+      let '(c', ops) := cstep c e in
+      let '(st', ro) := apply_ops cadel st ops None in
+      listing_eqb (files st') ls &&
+      match e with
+      | CDrain => list_str_eqb synced (map task_key (c_pend c))
+      | CGet _ => match ro with Some (mp, me) => String.eqb mp p && Bool.eqb me er | None => false end
+      | _ => true
+      end && cagree cadel c' st' r robs
+  | _, _ => false
+  end.
+
+(* S: the worker's knowledge is brought up to date for EVERY key that had an event (whether or
+   not a handler queued it) with the object the cluster holds at that moment; the listing is
+   judged whenever no event is outstanding. *)
+Fixpoint cspec_run (univ : list string) (done : list op) (g : ghost) (objs : objects) (dirty : list qtask)
+         (i : Z) (h : list cev) (obs : list csobs) : Z * list Z :=
+  match h, obs with
+  | e :: r, (ob, _) :: robs =>
+      match e with
+      | CPut ns name v => cspec_run univ done g (oset objs (key_of ns name) (Some v)) (enq (ns, name) dirty) (i + 1) r robs
+      | CDel ns name => cspec_run univ done g (oset objs (key_of ns name) None) (enq (ns, name) dirty) (i + 1) r robs
+      | CDrain =>
+          let gops := map (sync_op objs) dirty in
+          let g' := fold_left gstep gops g in
+          let done' := (done ++ gops)%list in
+          match step_verdict univ done' g' (Delete "") ob with
+          | [] => cspec_run univ done' g' objs [] (i + 1) r robs
+          | v => (i, v)
+          end
+      | CGet k =>
+          let g' := gstep g (Get k) in
+          let done' := (done ++ [Get k])%list in
+          match dirty with
+          | [] => match step_verdict univ done' g' (Get k) ob with
+                  | [] => cspec_run univ done' g' objs dirty (i + 1) r robs
+                  | v => (i, v)
+                  end
+          | _ => cspec_run univ done' g' objs dirty (i + 1) r robs
+          end
+      end
+  | [], [] => (-1, [])
+  | _, _ => (i, [4; 0; 0; 0; 0; 0])
+  end.
+
+Definition cuniverse (h : list cev) : list string :=
+  dedup (flat_map (fun e => match e with CPut ns name _ => [key_of ns name] | _ => [] end) h).
+
+Definition ctl_case (id : Z) (h : list cev) (obs : list csobs) : list Z :=
+  let '(i, v) := cspec_run (cuniverse h) [] gempty (fun _ => None) [] 0 h obs in
+  let sobs_only := map fst obs in
+  ([id; b2z (cagree false cinit init h obs); b2z (match v with [] => true | _ => false end);
+    b2z (nonempty_somewhere sobs_only); Z.of_nat (List.length (compile h)); b2z (cagree true cinit init h obs); i]
+   ++ match v with [] => [0; 0; 0; 0; 0; 0] | _ => v end)%list.
